@@ -114,8 +114,12 @@ DoPowerCycle == EnableRestart /\ last \notin {"Restart", "PowerCycle", "Init"}
 DoDebugWrite == EnableDebugWrites /\ last # "DebugVarWrite" /\ \E k \in DOMAIN cfg.bindings :
         LET b == cfg.bindings[k] v == [i \in 1..SizeBytes(b.size) |-> 1] IN
         Step("DebugVarWrite", DebugVarWriteOf(s, b.var, v), [a |-> "DebugVarWrite", var |-> b.var, val |-> v]) /\ UNCHANGED ncycles
-Next == DoDebugWrite \/ DoRestart \/ DoPowerCycle \/ DoAdvance \/ DoSetSingle \/ DoSetSrc \/ DoInject \/ DoFailDriver \/ DoWatchdog \/ DoSimFault \/ DoCycle \/ DoRefusedCycle \/ DoInjectFb
+Next == DoDebugWrite \/ DoRestart \/ DoPowerCycle \/ DoAdvance \/ DoSetSingle \/ DoSetSrc \/ DoInject \/ DoFailDriver \/ DoWatchdog \/ DoSimFault \/ DoCycle \/ DoRefusedCycle
 Spec == Init /\ [][Next]_mvars
+\* the instances over configurations with FB-task associations (the *fb.cfg files) add the faults
+\* inside FB bodies; the instances without keep exactly the actions they always had
+NextFb == Next \/ DoInjectFb
+SpecFb == Init /\ [][NextFb]_mvars
 
 \* ------------------------------------------------------------------ C06
 NoDup(q) == \A i, j \in DOMAIN q : i # j => q[i] # q[j]
